@@ -647,6 +647,31 @@ int openat(int d, const char* p, int flags, ...) {
   if (fd >= 0 && fd < 1024) watched[fd] = ends(p) && is_write(flags);
   return fd;
 }
+/* libstdc++'s basic_filebuf opens and closes through fopen/fclose (whose open/close are internal to libc) */
+static int mode_writes(const char* m) { return strchr(m, 'w') || strchr(m, 'a') || strchr(m, '+'); }
+FILE* fopen(const char* p, const char* m) {
+  static FILE* (*real)(const char*, const char*) = 0;
+  if (!real) real = dlsym(RTLD_NEXT, "fopen");
+  if (ends(p) && mode_writes(m)) tick("open");
+  FILE* f = real(p, m);
+  if (f) { int fd = fileno(f); if (fd >= 0 && fd < 1024) watched[fd] = ends(p) && mode_writes(m); }
+  return f;
+}
+FILE* fopen64(const char* p, const char* m) {
+  static FILE* (*real)(const char*, const char*) = 0;
+  if (!real) real = dlsym(RTLD_NEXT, "fopen64");
+  if (ends(p) && mode_writes(m)) tick("open");
+  FILE* f = real(p, m);
+  if (f) { int fd = fileno(f); if (fd >= 0 && fd < 1024) watched[fd] = ends(p) && mode_writes(m); }
+  return f;
+}
+int fclose(FILE* f) {
+  static int (*real)(FILE*) = 0;
+  if (!real) real = dlsym(RTLD_NEXT, "fclose");
+  int fd = f ? fileno(f) : -1;
+  if (fd >= 0 && fd < 1024 && watched[fd]) { tick("close"); watched[fd] = 0; }
+  return real(f);
+}
 ssize_t write(int fd, const void* b, size_t n) {
   static ssize_t (*real)(int, const void*, size_t) = 0;
   if (!real) real = dlsym(RTLD_NEXT, "write");
